@@ -55,11 +55,21 @@ _add(PropertySpec(
     not_decided=["tree_to_triples, tree_from_triples, all_trees_from_triples, supertree, DisjointSet.to_list / binary / group count = number of classes: bounded stand-in only (ete3-bound code, set.pop order, cardinalities)"],
 ))
 
+TS = "superrec2.utils.toposort"
 _add(PropertySpec(
-    "C19", files=["toposort"], targets=[], level="exploration",
-    standins=["toposort:all-orderings-vs-permutation-filter"],
-    technique="bounded stand-in (runtime check against permutation filtering); no obligations are discharged for this property",
-    not_decided=["toposort / toposort_all / _toposort_all_bt: the inductive invariant needs in-degree = number of unprocessed predecessors (a cardinality), which the SMT back ends do not support; not proved"],
+    "C19", files=["toposort"], targets=[f"{TS}:toposort", "lemma_stuck_blocks_every_order"], level="exploration",
+    standins=["toposort:all-orderings-vs-permutation-filter", "toposort:counting-axioms"],
+    standin_for={f"{TS}:toposort": "toposort:all-orderings-vs-permutation-filter"},
+    technique="contract-based deductive verification of the single-ordering routine (Kahn's algorithm: loop invariants over a ghost counting function, "
+              "impossibility lemma by induction), VCs discharged by z3/cvc5; bounded stand-in (permutation filtering) for the all-orderings routine",
+    assumptions=["ghost counting function rem(graph, D, v) = |{u in graph, u not in D : v in graph[u]}|: four first-order facts ASSUMED (non-negative; zero iff every predecessor is in D; "
+                 "one more vertex in D lowers it by one exactly for its successors) - cardinalities are not definable in the SMT theories used; evaluated on all small digraphs by the stand-in `toposort:counting-axioms`",
+                 "len(dict) is an uninterpreted function of the key set; two pigeonhole lemmas ASSUMED (a duplicate-free key sequence of that length contains every key, and conversely)",
+                 "collections.deque modelled as a sequence: deque(dict) = the keys once each; popleft / append / remove(first occurrence) stated element-wise, with their membership-level consequences",
+                 "successors are vertices (keys of the dict) - precondition; otherwise toposort raises KeyError"],
+    not_decided=["toposort_all / _toposort_all_bt (each ordering exactly once): NOT discharged - the backtracking routine shares and restores the in-degree map across recursive calls and returns lists it "
+                 "later mutates; the 'exactly once' clause is a statement about the multiset of all permutations; bounded stand-in only",
+                 "find_cycle: not part of the property"],
 ))
 
 MRC = "superrec2.model.reconciliation"
